@@ -19,7 +19,9 @@ RULE = ("the crate harness/cfg is built six times ({none, alloc, std} x {half, n
         "Non-trivial: ok or a non-eoi error.")
 ASSUMPTIONS = ["only the x86-64 target is built (32-bit and atomic cfgs are not compiled here)",
                "serde-bridge configurations are exercised by C17/C18 in the std+half configuration only"]
-TYPED = ["opt(u8)", "tup(u8,i16,bool)", "arr(3,u16)", "fields(u32,u32)", "duration", "str", "bound(u8)", "opt(fields(u32,u32))"]
+TYPED = ["opt(u8)", "tup(u8,i16,bool)", "arr(3,u16)", "fields(u32,u32)", "duration", "str", "bound(u8)", "opt(fields(u32,u32))",
+         "tagged(0,str)", "tagged(32,u8)", "tup(u8,tagged(1000,i16))", "opt(tagged(4294967296,bool))", "nz(u8)", "nz(i64)", "int", "tag", "bool", "char",
+         "unit", "u64", "i8", "barr(4)", "bytes", "arr(2,opt(tup(u8,bool)))", "enum(u8,str)"]
 
 
 def cfg_bin(name):
@@ -67,6 +69,24 @@ def typed_inputs(rng, n):
         "str": [b"\x61a", b"\x62\xc3\xa9", b"\x61\xff", b"\x7f\x61a\xff", b"\x78\x01a"],
         "bound(u8)": [b"\x82\x00\x05", b"\x82\x01\x05", b"\x82\x02\x80", b"\x82\x02\x82\x01\x02", b"\x82\x03\x05", b"\x82\x02\x9f\x01\xff"],
         "opt(fields(u32,u32))": [b"\xf6", b"\x82\x01\x02", b"\x83\x01\x02\x9f\xff"],
+        # every other Decode impl that exists without alloc, incl. the wrong-tag / wrong-length / out-of-range error paths
+        "tagged(0,str)": [b"\xc0\x61a", b"\xc1\x61a", b"\xd8\x00\x61a", b"\x61a", b"\xc0\x01", b"\xd8\x18\x61a"],
+        "tagged(32,u8)": [b"\xd8\x20\x05", b"\xd8\x21\x05", b"\xd9\x00\x20\x18\xff", b"\xc0\x05", b"\xd8\x20\x19\x01\x00"],
+        "tup(u8,tagged(1000,i16))": [b"\x82\x00\xd9\x03\xe8\x21", b"\x82\x00\xd8\x18\x21", b"\x82\x00\x21", b"\x9f\x00\xd9\x03\xe8\x21\xff"],
+        "opt(tagged(4294967296,bool))": [b"\xf6", b"\xdb\x00\x00\x00\x01\x00\x00\x00\x00\xf5", b"\xda\xff\xff\xff\xff\xf5", b"\xdb\x00\x00\x00\x01\x00\x00\x00\x01\xf4"],
+        "nz(u8)": [b"\x01", b"\x00", b"\x18\xff", b"\x19\x01\x00", b"\x20"],
+        "nz(i64)": [b"\x00", b"\x3b\x7f" + b"\xff" * 7, b"\x3b\x80" + b"\x00" * 7, b"\x1b\x80" + b"\x00" * 7, b"\x20"],
+        "int": [b"\x3b" + b"\xff" * 8, b"\x1b" + b"\xff" * 8, b"\x00", b"\x38\x17", b"\xc2\x41\x01"],
+        "tag": [b"\xc1", b"\xd8\x18", b"\xdb" + b"\xff" * 8, b"\x01", b"\xdc"],
+        "bool": [b"\xf4", b"\xf5", b"\xf6", b"\x01", b"\xf8\x14"],
+        "char": [b"\x18\x78", b"\x19\xd8\x00", b"\x1a\x00\x11\x00\x00", b"\x1a\x00\x10\xff\xff", b"\x61\x78"],
+        "unit": [b"\x80", b"\x9f\xff", b"\x81\x00", b"\xf6", b"\x98\x00"],
+        "u64": [b"\x1b" + b"\xff" * 8, b"\x00", b"\x20", b"\x1c"],
+        "i8": [b"\x38\x7f", b"\x38\x80", b"\x18\x7f", b"\x18\x80", b"\x39\x00\x01"],
+        "barr(4)": [b"\x44\x01\x02\x03\x04", b"\x43\x01\x02\x03", b"\x45\x01\x02\x03\x04\x05", b"\x5f\x44\x01\x02\x03\x04\xff", b"\x64abcd"],
+        "bytes": [b"\x42\x01\x02", b"\x40", b"\x5f\x41\x01\xff", b"\x61a", b"\x58\x02\x01\x02"],
+        "arr(2,opt(tup(u8,bool)))": [b"\x82\xf6\x82\x01\xf5", b"\x9f\x82\x01\xf4\xf6\xff", b"\x82\xf6\x83\x01\xf5\x00", b"\x81\xf6", b"\x83\xf6\xf6\xf6"],
+        "enum(u8,str)": [b"\x82\x00\x05", b"\x82\x01\x61a", b"\x82\x02\x05", b"\x9f\x00\x05\xff", b"\x81\x00", b"\x82\x00\x61a"],
     }
     for d, xs in samples.items():
         for x in xs:
@@ -184,11 +204,34 @@ def streams(rng, tier):
                     rule=f"serde-bridge Deserializer/Serializer on types available without alloc, configuration {name}: identical to the std+half build (documented: f9 is a type error without half)")
         st.shrinkable = False
         out.append(st)
+    seen = {}         # op -> [(configuration, alloc, half, answer)]: the property itself, decided across the six builds
+
+    def comparable(op, a1, h1, a2, h2):
+        """may the two configurations differ on this op by a *documented* difference?  (then they are not compared)"""
+        w = op.split(" ")
+        hx = w[2] if len(w) > 2 else ""
+        if h1 != h2 and w[0] == "dec" and w[1] in ("f32", "f64") and hx[:2] == "f9":
+            return False          # without `half` a half-precision item is a type error
+        if a1 != a2 and w[0] == "dec" and (w[1] == "skip" or w[1].startswith("t:")) and any(hx[i:i + 2] in ("9f", "bf") for i in range(0, len(hx), 2)):
+            return False          # without `alloc` skip() may refuse an indefinite array/map nested in a definite one
+        return True
+
+    def cross(op, name, alloc, half, impl):
+        bad = None
+        for (n2, a2, h2, r2) in seen.get(op, []):
+            if r2 != impl and comparable(op, alloc, half, a2, h2):
+                bad = (n2, r2)
+                break
+        seen.setdefault(op, []).append((name, alloc, half, impl))
+        return bad
+
     for name, feats in CONFIGS:
         alloc = "alloc" in feats or "std" in feats
         half = "half" in feats
         o = [op for op in ops if exists(op, half)]
-        def judge_cfg(op, impl, model, spec, alloc=alloc):
+        def judge_cfg(op, impl, model, spec, alloc=alloc, half=half, name=name):
+            if cross(op, name, alloc, half, impl) is not None:
+                return "violation"          # two feature configurations answer differently on the same input: a failing input of C20
             if impl == model:
                 return "ok"
             w = op.split(" ")
@@ -202,7 +245,7 @@ def streams(rng, tier):
                     return "ok"
             return "corr"
         st = Stream("cfg-" + name, cfg_bin(name), o, model_ops=[model_op(op, alloc, half) for op in o], judge=judge_cfg,
-                    rule=f"configuration {name} (alloc={alloc}, half={half}) against the model at that configuration")
+                    rule=f"configuration {name} (alloc={alloc}, half={half}) against the model at that configuration, and against the answers of the configurations run before it (same value / class / position unless the difference is one of the two documented ones)")
         st.shrinkable = False
         out.append(st)
     return out
